@@ -82,7 +82,7 @@ class C07(Check):
                         "superblock/descriptor parse by sim/py/minifs.py (no libext2fs code)"]
 
     def budget(self, tier):
-        return {"runs": 900, "wall_s": 80} if tier == "quick" else {"runs": 40000, "wall_s": 1500}
+        return {"runs": 900, "wall_s": 80} if tier == "quick" else {"runs": 15000, "wall_s": 1500}
 
     def generate(self, rng, tier):
         cfg = gen_config(rng)
@@ -233,7 +233,7 @@ class C07(Check):
                 comp = fs.check()
                 o.stats["probe.refext4_checked"] += 1
                 if comp:
-                    o.violate("consistency|refext4|%s" % comp[0].rule,
+                    o.violate("consistency|refext4|%s%s" % (comp[0].rule, "(resize_inode)" if "of inode 7)" in comp[0].detail else ""),
                               "independent checker complains (%d): %s ... on mke2fs %s" %
                               (len(comp), "; ".join("%s %s" % (c.rule, c.detail) for c in comp[:4]), argvs))
             except Exception as ex:
